@@ -442,8 +442,11 @@ def write_evidence(prop: str, tier: str, seed: int, level: str, col: Collector, 
         "wall_s": round(wall_s, 2),
         "violations": n_violations,
     }
-    os.makedirs(os.path.join(VERIF, "evidence"), exist_ok=True)
-    path = os.path.join(VERIF, "evidence", f"{prop}.json")
+    # VERIF_EVIDENCE_DIR: diagnostics only (tools/seedsweep.sh runs checks against a deliberately broken scratch tree and must
+    # not overwrite the evidence of /repo); registered commands never set it
+    ev_dir = os.environ.get("VERIF_EVIDENCE_DIR") or os.path.join(VERIF, "evidence")
+    os.makedirs(ev_dir, exist_ok=True)
+    path = os.path.join(ev_dir, f"{prop}.json")
     tmp = path + ".tmp"
     with open(tmp, "w") as f:
         json.dump(ev, f, indent=1, sort_keys=True, default=repr, ensure_ascii=True)
